@@ -249,6 +249,33 @@ static int req_draw(const request *q, uint32_t narrow[W * H], float wide[W * H *
     pixman_image_composite32(PIXMAN_OP_SRC, src, NULL, dn, q->ox, q->oy, 0, 0, 0, 0, W, H);
     pixman_image_composite32(PIXMAN_OP_SRC, src, NULL, dw, q->ox, q->oy, 0, 0, 0, 0, W, H);
     vf_count_libcalls(2);
+    {
+        /* the same request with a mask that masks nothing (a8, every pixel 0xff): the gradient iterators are handed the mask scanline and
+         * may skip pixels it zeroes; with this mask both pipelines must deliver exactly the unmasked picture */
+        static uint32_t n2[W * H]; static float w2[W * H * 4]; static uint8_t mpix[H][(W + 3) & ~3];
+        memset(n2, 0, sizeof n2); memset(w2, 0, sizeof w2); memset(mpix, 0xff, sizeof mpix);
+        pixman_image_t *m = pixman_image_create_bits(PIXMAN_a8, W, H, (uint32_t *)mpix, (W + 3) & ~3);
+        pixman_image_t *dn2 = pixman_image_create_bits(PIXMAN_a8r8g8b8, W, H, n2, W * 4);
+        pixman_image_t *dw2 = pixman_image_create_bits(PIXMAN_rgba_float, W, H, (uint32_t *)w2, W * 16);
+        if (m && dn2 && dw2) {
+            pixman_image_composite32(PIXMAN_OP_SRC, src, m, dn2, q->ox, q->oy, 0, 0, 0, 0, W, H);
+            pixman_image_composite32(PIXMAN_OP_SRC, src, m, dw2, q->ox, q->oy, 0, 0, 0, 0, W, H);
+            vf_count_libcalls(2);
+            int bn = memcmp(n2, narrow, sizeof n2) != 0, bw = memcmp(w2, wide, sizeof w2) != 0;
+            if (bn || bw) {
+                char rs[400], key[64]; req_str(q, rs, sizeof rs);
+                int at = 0;
+                if (bn) { for (int i = 0; i < W * H; i++) if (n2[i] != narrow[i]) { at = i; break; } }
+                else { for (int i = 0; i < W * H * 4; i++) if (memcmp(&w2[i], &wide[i], 4)) { at = i / 4; break; } }
+                snprintf(key, sizeof key, "c13-%s-masked-by-all-ones-differs-%s", KNAME[q->kind], bn ? "narrow" : "wide");
+                vf_violation(key, "%s: drawn through an a8 mask whose every pixel is 0xff, pixel (%d,%d) of the %s destination differs from the unmasked drawing (%s)", rs, at % W, at / W,
+                             bn ? "a8r8g8b8" : "rgba_float", bn ? "8-bit pipeline" : "float pipeline");
+            }
+        }
+        if (m) pixman_image_unref(m);
+        if (dn2) pixman_image_unref(dn2);
+        if (dw2) pixman_image_unref(dw2);
+    }
     pixman_image_unref(dn); pixman_image_unref(dw); pixman_image_unref(src);
     if (vf_asan_flag) {   /* the engine would report key "asan"; give it the decoded case and a narrower key */
         char rs[400], key[64]; req_str(q, rs, sizeof rs);
